@@ -342,6 +342,9 @@ def config(draw, case, cons=CONS, vars_=VARS, doms=DOMS):
     c = {"cons": draw(st.sampled_from(cons)), "var": draw(st.sampled_from(vs)), "dom": draw(st.sampled_from(ds))}
     if c["var"] == "max_regret" or c["dom"] == "min_cost":
         c["costs"] = draw(cost_table(case))
+    if len(case["shr"]) > 1 and draw(st.integers(0, 3)) == 0:
+        # decision domains in any order (all of them: every domain is a decision domain, as C02 requires)
+        c["decision"] = list(draw(st.permutations(list(range(len(case["shr"]))))))
     return c
 
 
